@@ -18,7 +18,7 @@ func init() { core.Register(c14{}) }
 func (c14) ID() string    { return "C14" }
 func (c14) Level() string { return "exploration" }
 func (c14) Rule() string {
-	return "seeded starts with 0..40 closer components (plain, lazy, runner+closer, with dependencies) among other components; a seeded subset returns errors (all subsets for <= 4 closers across the case list), a seeded subset returns instantly, the rest block on a gate inside their own Close method: a controller releases them in a seeded order only once every gated closer has begun (a fallback delay keeps serial-but-correct implementations live; no verdict depends on it). Oracle, sampled immediately after App.Close returns from the shared event log: every closer has exactly one close-begin and exactly one close-end event; afterwards (all gates released) still exactly one each. The same workload is repeated on a -race build; any race report with a go-kid/ioc frame is a violation. non-trivial = >= 2 gated closers with at least one failing or instant one; distinct = closer multiset + observed finishing order"
+	return "seeded starts with 0..40 closer components (plain, lazy, runner+closer, with dependencies) among other components; a seeded subset returns errors (all subsets for <= 4 closers across the case list), a seeded subset returns instantly, the rest block on a gate inside their own Close method: a controller releases them in a seeded order only once every gated closer has begun; if the number of closers that have begun does not move during 2 million scheduler yields and 3 s, the closers are declared stalled (slow closers prevented the others from being invoked) and everything is released. Oracle, sampled immediately after App.Close returns from the shared event log: every closer has exactly one close-begin and exactly one close-end event; afterwards (all gates released) still exactly one each. The same workload is repeated on a -race build; any race report with a go-kid/ioc frame is a violation. non-trivial = >= 2 gated closers with at least one failing or instant one; distinct = closer multiset + observed finishing order"
 }
 func (c14) Assumptions() []string {
 	return []string{"gates live inside harness-supplied Close methods (caller code), so no failpoint in the repository is needed to overlap the concurrent Close calls"}
@@ -115,12 +115,37 @@ func (p c14) run(c *core.Ctx) {
 	}
 	ctlDone := make(chan struct{})
 	fellBack := false
+	stalledAt := -1
 	go func() {
 		defer close(ctlDone)
-		select {
-		case <-gate.all:
-		case <-time.After(150 * time.Millisecond):
-			fellBack = true
+		// Wait until every gated closer has begun. Progress is watched in scheduler yields (logical
+		// steps): only when the arrival count has not moved for 2 million yields AND at least 3 s have
+		// passed are the closers that did not begin declared "not invoked while others are slow".
+		last, idle := -1, 0
+		t0 := time.Now()
+	wait:
+		for {
+			select {
+			case <-gate.all:
+				break wait
+			default:
+			}
+			gate.mu.Lock()
+			a := gate.arrived
+			gate.mu.Unlock()
+			if a != last {
+				last, idle, t0 = a, 0, time.Now()
+			}
+			idle++
+			if idle > 2000000 && time.Since(t0) > 3*time.Second {
+				fellBack, stalledAt = true, a
+				break wait
+			}
+			if idle%1000 == 0 {
+				time.Sleep(50 * time.Microsecond)
+			} else {
+				runtime.Gosched()
+			}
 		}
 		for x, i := range relOrder {
 			name := sc.Nodes[closers[i]].DisplayName()
@@ -144,7 +169,10 @@ func (p c14) run(c *core.Ctx) {
 		return
 	}
 	if fellBack {
-		c.Count("fallback_release_used", 1)
+		c.Count("stalled_closes", 1)
+		c.Fail("", fmt.Sprintf("only %d of %d blocking closers were invoked: while they were merely slow (waiting), App.Close made no progress invoking the remaining closers (no arrival during 2 million scheduler yields and 3 s)", stalledAt, gate.expected),
+			failDetail(sc, r, map[string]any{"closers": nc, "gated": gate.expected}))
+		return
 	}
 	count := func(evs []eventLite, kind, who string) int {
 		n := 0
